@@ -4,6 +4,7 @@
   adapter is transparent; word positions are byte positions divided by the word size.
 -/
 import Dsi.Impl.Adapter
+import Dsi.Impl.AdapterSeek
 import Dsi.Glue.MiscDriver
 namespace Dsi
 
@@ -386,28 +387,30 @@ theorem adapter_read_words_exact (nbytes : Nat) (src src' : Source) (k : Nat) (w
 theorem ad_rw (nbytes : Nat) (c : AdCursor) (h : c.pos + nbytes ≤ c.data.length) :
     adSeekStep nbytes c ["rw"] =
       (bytesHex ((c.data.drop c.pos).take nbytes), some { c with pos := c.pos + nbytes }) := by
-  simp [adSeekStep, h]
+  simp [adSeekStep, AdCursor.readWord, h]
 
 theorem ad_rw_eof (nbytes : Nat) (c : AdCursor) (h : c.data.length < c.pos + nbytes) :
-    adSeekStep nbytes c ["rw"] = ("E:eof", none) := by
+    adSeekStep nbytes c ["rw"] = ("E:eof", some c.afterFailedRead) := by
   have : ¬ c.pos + nbytes ≤ c.data.length := by omega
-  simp [adSeekStep, this]
+  simp [adSeekStep, AdCursor.readWord, this, showRes]
 
 theorem ad_wp (nbytes : Nat) (c : AdCursor) :
     adSeekStep nbytes c ["wp"] = (toString ((c.pos + nbytes - 1) / nbytes), some c) := by
-  simp [adSeekStep]
+  simp [adSeekStep, AdCursor.wordPos]
 
 theorem ad_sp (nbytes : Nat) (c : AdCursor) (ks : String) (k : Nat) (hk : num? ks = some k) :
     adSeekStep nbytes c ["sp", ks] = ("ok", some { c with pos := k * nbytes }) := by
-  simp [adSeekStep, hk]
+  simp [adSeekStep, AdCursor.setWordPos, hk]
 
 /-- `k` successive `rw` operations (`none` as soon as one fails) -/
 def adRwN (nbytes : Nat) : AdCursor → Nat → Option AdCursor
   | c, 0 => some c
   | c, k + 1 =>
-    match (adSeekStep nbytes c ["rw"]).2 with
-    | some c' => adRwN nbytes c' k
-    | none => none
+    if c.pos + nbytes ≤ c.data.length then
+      match (adSeekStep nbytes c ["rw"]).2 with
+      | some c' => adRwN nbytes c' k
+      | none => none
+    else none
 
 theorem ad_rwN_pos (nbytes : Nat) (c c' : AdCursor) (k : Nat) (h : adRwN nbytes c k = some c') :
     c'.pos = c.pos + k * nbytes ∧ c'.data = c.data := by
@@ -416,12 +419,12 @@ theorem ad_rwN_pos (nbytes : Nat) (c c' : AdCursor) (k : Nat) (h : adRwN nbytes 
   | succ k ih =>
     unfold adRwN at h
     by_cases hle : c.pos + nbytes ≤ c.data.length
-    · rw [ad_rw nbytes c hle] at h
+    · rw [if_pos hle, ad_rw nbytes c hle] at h
       obtain ⟨h1, h2⟩ := ih _ h
       simp only at h1 h2
       refine ⟨?_, h2⟩
       rw [h1, Nat.succ_mul]; omega
-    · rw [ad_rw_eof nbytes c (by omega)] at h
+    · rw [if_neg hle] at h
       cases h
 
 /-- after `k` successful `read_word` from position 0, `word_pos` answers `k` -/
@@ -459,6 +462,17 @@ theorem ad_sp_then_rw (nbytes : Nat) (hn : 0 < nbytes) (c : AdCursor) (ks : Stri
       rw [h2, Nat.add_mul_div_left _ _ hn, Nat.div_eq_of_lt (by omega)]
       omega
     rw [this]
+
+/-- a `read_word` that failed (possibly leaving the byte position inside a partial trailing word)
+    does not disturb later seeks: `set_word_pos(k)` still addresses word `k` -/
+theorem ad_sp_after_failed_read (nbytes : Nat) (hn : 0 < nbytes) (c : AdCursor) (ks : String) (k : Nat)
+    (hf : c.data.length < c.pos + nbytes) (hk : num? ks = some k) (hin : (k + 1) * nbytes ≤ c.data.length) :
+    ∃ c0 c1 c2, adSeekStep nbytes c ["rw"] = ("E:eof", some c0) ∧
+      adSeekStep nbytes c0 ["sp", ks] = ("ok", some c1) ∧
+      adSeekStep nbytes c1 ["rw"] = (bytesHex ((c.data.drop (k * nbytes)).take nbytes), some c2) ∧
+      adSeekStep nbytes c2 ["wp"] = (toString (k + 1), some c2) := by
+  obtain ⟨c1, c2, h1, h2, _, h4⟩ := ad_sp_then_rw nbytes hn c.afterFailedRead ks k hk hin
+  exact ⟨c.afterFailedRead, c1, c2, ad_rw_eof nbytes c hf, h1, h2, h4⟩
 
 /-- the bytes `rw` shows are the bytes the adapter reads from a fault-free source positioned at
     the same byte -/
